@@ -1,11 +1,19 @@
 (* C13 - An incident keeps one identity from open to close.
-   Statements only; proofs are in NotifierProofs.v.  Model: Notifier.v (checkAndSendResponseToModules + notifyModule of
-   core/internal/notifier/coordinator.go, tied to the source by the probe of checks/c13.py on every run).
+   Statements only; proofs are in NotifierProofs.v.  Model: Notifier.v (checkAndSendResponseToModules + notifyModule +
+   processConsumerList + processClusterList of core/internal/notifier/coordinator.go, tied to the source by the probe of
+   checks/c13.py on every run).
 
-   Vocabulary (NotifierProofs.v): a history h is any list of (clock, response); [opens h k i] - result i of group k is
-   worse than OK and every earlier worse-than-OK result of k was followed by an OK; [member h k i j] - result j is a
-   live (not NOTFOUND) result of k with no OK of k in [i, j), i.e. it belongs to the incident opened at i, the closing
-   OK included; [calls_at mods h j] - the Notify calls made for result j ([run_calls_at]: what [run] computes). *)
+   Vocabulary (NotifierProofs.v).  A history h is any list of events: [HResponse now r] - an evaluator response handled
+   at clock now; [HRefresh now c gs] - processConsumerList for cluster c receives the group list gs; [HClusters now cs] -
+   processClusterList receives the cluster list cs.  It starts in the state Configure leaves (no cluster, no record).
+   [recorded h k j] - group k = (cluster, group) is on the notifier's list when event j arrives ([C13_recorded_spec]:
+   a function of the lists received before j alone); [status_of h k j] - the status of event j if it is a result for k
+   and k is on the list (a result for a group off the list is dropped like NOTFOUND; no evaluation is requested for such
+   a group); [opens h k i] - result i of k is worse than OK and every earlier worse-than-OK result of k was followed by
+   an OK or by k leaving the list; [member h k i j] - result j is a live (not NOTFOUND) result of k, there is no OK of k in
+   [i, j) and [listed_throughout h k i j]: k is on the list at every position from i to j, i.e. every refresh in between
+   repeats it - j belongs to the incident opened at i, the closing OK included; [calls_at mods h j] - the Notify calls
+   made for event j ([C13_calls_at_is_run]: what [run] computes). *)
 From Coq Require Import ZArith List Bool.
 From Burrow Require Import Int64 Notifier NotifierProofs.
 Import ListNotations.
@@ -16,8 +24,116 @@ Theorem C13_calls_at_is_run :
 Proof. exact run_calls_at. Qed.
 Print Assumptions C13_calls_at_is_run.
 
+(* ---- the vocabulary ---- *)
+
+Theorem C13_recorded_spec :
+  forall h k j,
+    recorded h k 0 = false /\
+    forall e, nth_error h j = Some e ->
+      recorded h k (S j) =
+      match e with
+      | HResponse _ _ => recorded h k j
+      | HRefresh _ c gs => if cluster_known h c j && (fst k =? c) then memz (snd k) gs else recorded h k j
+      | HClusters _ cs => memz (fst k) cs && cluster_known h (fst k) j && recorded h k j
+      end.
+Proof. exact recorded_spec. Qed.
+Print Assumptions C13_recorded_spec.
+
+Theorem C13_cluster_known_spec :
+  forall h c j,
+    cluster_known h c 0 = false /\
+    forall e, nth_error h j = Some e ->
+      cluster_known h c (S j) = match e with HClusters _ cs => memz c cs | _ => cluster_known h c j end.
+Proof. exact cluster_known_spec. Qed.
+Print Assumptions C13_cluster_known_spec.
+
+Theorem C13_member_unfold :
+  forall h k i j,
+    member h k i j <->
+    ((i <= j)%nat /\ live_at h k j /\ (forall l, (i <= l < j)%nat -> ~ ok_at h k l) /\ listed_throughout h k i j).
+Proof. exact member_unfold. Qed.
+Print Assumptions C13_member_unfold.
+
+Theorem C13_listed_throughout_unfold :
+  forall h k i j, listed_throughout h k i j <-> (forall l, (i <= l <= j)%nat -> recorded h k l = true).
+Proof. exact listed_throughout_unfold. Qed.
+Print Assumptions C13_listed_throughout_unfold.
+
+(* the model's set of records is what the lists received so far name *)
+Theorem C13_records_are_the_listed_groups :
+  forall mods h j,
+    (forall k, c_reg (state_at mods h j) k = recorded h k j) /\
+    (forall c, c_known (state_at mods h j) c = cluster_known h c j).
+Proof. exact reg_recorded. Qed.
+Print Assumptions C13_records_are_the_listed_groups.
+
+(* ---- the refresh ---- *)
+
+(* A group-list refresh of cluster c makes no call and draws no id; it leaves every record of every other cluster
+   untouched and the record of every LISTED group of c that has one unchanged (id, start, every remembered notify
+   time); a listed group without record gets a blank one; an unlisted group of c loses its record; for a cluster
+   without entry it does nothing. *)
+Theorem C13_refresh_frame :
+  forall st c gs k,
+    let st' := on_refresh st c gs in
+    c_next st' = c_next st /\ (forall c', c_known st' c' = c_known st c') /\
+    (c_known st c = false -> st' = st) /\
+    (fst k <> c -> c_reg st' k = c_reg st k /\ c_groups st' k = c_groups st k) /\
+    (c_known st c = true -> fst k = c ->
+       c_reg st' k = memz (snd k) gs /\
+       (memz (snd k) gs = true -> c_reg st k = true -> c_groups st' k = c_groups st k) /\
+       (memz (snd k) gs = true -> c_reg st k = false -> c_groups st' k = g_init)).
+Proof. exact refresh_frame. Qed.
+Print Assumptions C13_refresh_frame.
+
+Theorem C13_clusters_frame :
+  forall st cs k,
+    let st' := on_clusters st cs in
+    c_next st' = c_next st /\ (forall c, c_known st' c = memz c cs) /\
+    c_reg st' k = memz (fst k) cs && c_known st (fst k) && c_reg st k /\
+    (c_reg st' k = true -> c_groups st' k = c_groups st k) /\
+    (c_reg st' k = false -> c_groups st' k = g_init).
+Proof. exact clusters_frame. Qed.
+Print Assumptions C13_clusters_frame.
+
+Theorem C13_refresh_silent :
+  forall mods st e, is_resp e = false ->
+    snd (on_event mods st e) = [] /\ c_next (fst (on_event mods st e)) = c_next st.
+Proof. exact refresh_silent. Qed.
+Print Assumptions C13_refresh_silent.
+
+(* in a history: a refresh of either kind leaves the record of a group that is on the list before and after it as it was *)
+Theorem C13_refresh_keeps_listed_record :
+  forall mods h j e k,
+    nth_error h j = Some e -> is_resp e = false -> recorded h k j = true -> recorded h k (S j) = true ->
+    c_groups (state_at mods h (S j)) k = c_groups (state_at mods h j) k.
+Proof. exact refresh_keeps_listed_record. Qed.
+Print Assumptions C13_refresh_keeps_listed_record.
+
+(* a response for a group that is not on the list is dropped; a group that is not on the list has a blank slot *)
+Theorem C13_unrecorded_dropped :
+  forall mods h j now r,
+    nth_error h j = Some (HResponse now r) -> recorded h (resp_key r) j = false ->
+    calls_at mods h j = [] /\ state_at mods h (S j) = state_at mods h j.
+Proof. exact unrecorded_dropped. Qed.
+Print Assumptions C13_unrecorded_dropped.
+
+Theorem C13_unrecorded_blank :
+  forall mods h k j, recorded h k j = false -> c_groups (state_at mods h j) k = g_init.
+Proof. exact unrecorded_blank. Qed.
+Print Assumptions C13_unrecorded_blank.
+
+(* a record exists only under a cluster entry: a response that finds a record never meets a missing cluster entry *)
+Theorem C13_recorded_cluster_known :
+  forall h k j, recorded h k j = true -> cluster_known h (fst k) j = true.
+Proof. exact recorded_cluster_known. Qed.
+Print Assumptions C13_recorded_cluster_known.
+
+(* ---- the property ---- *)
+
 (* From the opening result to the closing OK every notification carries the same non-empty id and the start time
-   = clock of the opening result. *)
+   = clock of the opening result - for every incident during which the group stays listed, whatever refreshes (of
+   this or any other cluster, listing more or fewer other groups) fall inside it. *)
 Theorem C13_incident_identity :
   forall mods h k i j c,
     names_distinct mods -> opens h k i -> member h k i j -> In c (calls_at mods h j) ->
@@ -58,7 +174,41 @@ Theorem C13_no_close_without_incident :
 Proof. exact no_close_without_incident. Qed.
 Print Assumptions C13_no_close_without_incident.
 
-(* Frame: several groups and clusters interleave freely. *)
+(* An event id is never used outside its incident: whatever notification carries an id was made by a result that
+   belongs to the incident with that id. *)
+Theorem C13_call_id_belongs :
+  forall mods h j c x,
+    names_distinct mods -> In c (calls_at mods h j) -> nc_id c = Some x ->
+    exists k i, opens h k i /\ member h k i j /\ x = incident_id mods h i /\ (nc_cluster c, nc_group c) = k.
+Proof. exact call_id_belongs. Qed.
+Print Assumptions C13_call_id_belongs.
+
+(* ---- otherwise: the group leaves the list while its incident is open ---- *)
+
+(* The record is deleted (C13_unrecorded_blank), the results that still arrive are dropped (C13_unrecorded_dropped), and
+   from then on no notification of any kind - in particular no close - carries that incident's id. *)
+Theorem C13_dropped_incident_never_notified :
+  forall mods h k i l j c,
+    names_distinct mods -> opens h k i -> (i <= l <= j)%nat -> recorded h k l = false ->
+    In c (calls_at mods h j) -> nc_id c <> Some (incident_id mods h i).
+Proof. exact dropped_incident_never_notified. Qed.
+Print Assumptions C13_dropped_incident_never_notified.
+
+(* The first worse-than-OK result after the group is listed again opens a NEW incident with a fresh id (and, by
+   C13_incident_identity, its own clock as start time).  The property speaks of evaluations of a group: a group that
+   is off the list has none (none is requested, a late one is dropped), so the old incident has no "first evaluation
+   in which it is OK again" and the property asks for no close. *)
+Theorem C13_relisted_opens_new_incident :
+  forall mods h k i l i2,
+    names_distinct mods -> opens h k i -> (i < l < i2)%nat -> recorded h k l = false ->
+    bad_at h k i2 -> (forall i', (l < i' < i2)%nat -> ~ bad_at h k i') ->
+    opens h k i2 /\ incident_id mods h i2 <> incident_id mods h i.
+Proof. exact relisted_opens_new_incident. Qed.
+Print Assumptions C13_relisted_opens_new_incident.
+
+(* ---- frame ---- *)
+
+(* Several groups and clusters interleave freely. *)
 Theorem C13_groups_independent :
   forall mods st now r k',
     k' <> resp_key r -> c_groups (fst (on_response mods st now r)) k' = c_groups st k'.
@@ -67,9 +217,69 @@ Print Assumptions C13_groups_independent.
 
 Theorem C13_response_local :
   forall mods st1 st2 now r,
-    c_groups st1 (resp_key r) = c_groups st2 (resp_key r) -> c_next st1 = c_next st2 ->
+    c_groups st1 (resp_key r) = c_groups st2 (resp_key r) -> c_reg st1 (resp_key r) = c_reg st2 (resp_key r) ->
+    c_next st1 = c_next st2 ->
     snd (on_response mods st1 now r) = snd (on_response mods st2 now r) /\
     c_groups (fst (on_response mods st1 now r)) (resp_key r) = c_groups (fst (on_response mods st2 now r)) (resp_key r) /\
     c_next (fst (on_response mods st1 now r)) = c_next (fst (on_response mods st2 now r)).
 Proof. exact response_local. Qed.
 Print Assumptions C13_response_local.
+
+(* Go's map iteration order over nc.modules only permutes the calls of one response. *)
+Theorem C13_module_order_irrelevant :
+  forall mods mods' st now r,
+    Permutation.Permutation mods mods' -> names_distinct mods ->
+    Permutation.Permutation (snd (on_response mods st now r)) (snd (on_response mods' st now r)) /\
+    (forall k, geq (c_groups (fst (on_response mods st now r)) k) (c_groups (fst (on_response mods' st now r)) k)) /\
+    c_next (fst (on_response mods st now r)) = c_next (fst (on_response mods' st now r)) /\
+    c_reg (fst (on_response mods st now r)) = c_reg (fst (on_response mods' st now r)) /\
+    c_known (fst (on_response mods st now r)) = c_known (fst (on_response mods' st now r)).
+Proof. exact on_response_perm. Qed.
+Print Assumptions C13_module_order_irrelevant.
+
+(* ---- non-vacuity: NotifierProofs.ex_hist - two groups; refreshes inside an incident (a superset; a subset just before
+   the closing OK); a group dropped in mid-incident and listed again; a group list for a cluster without entry ---- *)
+
+Example C13_ex_identity :
+  names_distinct ex_mods /\ opens ex_hist ex_k1 2 /\ member ex_hist ex_k1 2 7 /\ ok_at ex_hist ex_k1 7 /\
+  listed_throughout ex_hist ex_k1 2 7 /\
+  is_resp (nth 4 ex_hist (HClusters 0 [])) = false /\ is_resp (nth 6 ex_hist (HClusters 0 [])) = false /\
+  calls_at ex_mods ex_hist 7 = [mkNcall 1 1 1 1 (Some 1) (Some 1000000000) true] /\
+  incident_id ex_mods ex_hist 2 = 1 /\ clock_at ex_hist 2 = 1000000000 /\
+  close_calls 1 (calls_at ex_mods ex_hist 7) = [mkNcall 1 1 1 1 (Some 1) (Some 1000000000) true] /\
+  close_calls 2 (calls_at ex_mods ex_hist 7) = [].
+Proof. exact ex_identity. Qed.
+
+Example C13_ex_refresh :
+  let g1 st := c_groups st ex_k1 in let g2 st := c_groups st ex_k2 in
+  (g_id (g1 (state_at ex_mods ex_hist 4)), g_start (g1 (state_at ex_mods ex_hist 4)), g_last (g1 (state_at ex_mods ex_hist 4)) 1)
+    = (Some 1, Some 1000000000, Some 1000000000) /\
+  (g_id (g1 (state_at ex_mods ex_hist 5)), g_start (g1 (state_at ex_mods ex_hist 5)), g_last (g1 (state_at ex_mods ex_hist 5)) 1)
+    = (Some 1, Some 1000000000, Some 1000000000) /\
+  (g_id (g2 (state_at ex_mods ex_hist 5)), g_start (g2 (state_at ex_mods ex_hist 5))) = (Some 2, Some 2000000000) /\
+  recorded ex_hist (1, 3) 4 = false /\ recorded ex_hist (1, 3) 5 = true /\ recorded ex_hist (1, 3) 7 = false /\
+  recorded ex_hist ex_k2 6 = true /\ recorded ex_hist ex_k2 7 = false /\
+  (g_id (g2 (state_at ex_mods ex_hist 7)), g_start (g2 (state_at ex_mods ex_hist 7))) = (None, None) /\
+  cluster_known ex_hist 2 12 = false /\ recorded ex_hist (2, 1) 13 = false /\ recorded ex_hist ex_k2 13 = true.
+Proof. exact ex_refresh. Qed.
+
+Example C13_ex_dropped :
+  opens ex_hist ex_k2 3 /\ incident_id ex_mods ex_hist 3 = 2 /\ recorded ex_hist ex_k2 7 = false /\
+  calls_at ex_mods ex_hist 10 = [] /\ status_of ex_hist ex_k2 10 = None /\
+  opens ex_hist ex_k2 13 /\
+  calls_at ex_mods ex_hist 13 = [mkNcall 1 1 2 3 (Some 4) (Some 68000000000) false].
+Proof. exact ex_dropped. Qed.
+
+Example C13_ex_distinct :
+  opens ex_hist ex_k1 2 /\ opens ex_hist ex_k1 8 /\ opens ex_hist ex_k2 3 /\ opens ex_hist ex_k2 13 /\
+  map nc_id (calls_at ex_mods ex_hist 2) = [Some 1; Some 1] /\
+  map nc_id (calls_at ex_mods ex_hist 8) = [Some 3] /\
+  map nc_id (calls_at ex_mods ex_hist 3) = [Some 2] /\
+  map nc_id (calls_at ex_mods ex_hist 13) = [Some 4].
+Proof. exact ex_distinct. Qed.
+
+Example C13_ex_frame :
+  g_start (c_groups (state_at ex_mods ex_hist 4) ex_k2) = Some 2000000000 /\
+  g_start (c_groups (state_at ex_mods ex_hist 6) ex_k2) = Some 2000000000 /\
+  g_start (c_groups (state_at ex_mods ex_hist 8) ex_k1) = None.
+Proof. exact ex_frame. Qed.
